@@ -401,6 +401,11 @@ func (w *World) runApp(ss *Session, out, in []int, outTag, inTag string, closer 
 			if k > 0 && k <= n {
 				ss.Written = append(ss.Written, b[:k]...)
 			}
+			// net.Conn: Write must not retain the slice; the application
+			// reuses its buffer as soon as Write has returned
+			for i := range b {
+				b[i] = 0xEE
+			}
 			if err != nil {
 				ss.WriteErr = err.Error()
 				w.ioError(ss, "Write: "+err.Error())
